@@ -6,6 +6,11 @@ import json, re, subprocess, sys
 pid, n = sys.argv[1], sys.argv[2]
 d = f"/verif/seeded/{pid}-{n}"
 inrepo = "--repo" in sys.argv
+# a seeded change may break a clause that belongs to another property's statement: meta.json then
+# names the property whose check is expected to report it ("check_property")
+_meta0 = json.load(open(d + "/meta.json"))
+seed_pid = pid
+pid = _meta0.get("check_property", pid)
 if inrepo:
     assert subprocess.run(["git", "-C", "/repo", "status", "--porcelain", "--untracked-files=no"], stdout=-1, text=True).stdout.strip() == "", "/repo not clean"
     subprocess.run(["git", "-C", "/repo", "apply", d + "/patch.diff"], check=True)
